@@ -124,4 +124,69 @@ theorem loadOrNew_clean (d : Disk) (v : String) (h : ¬ Settled d v) : loadOrNew
 
 theorem settled_clean (v : String) : Settled (cleanDisk v) v := ⟨_, rfl, rfl⟩
 
+
+/-! ### outcome case lemmas for the update path -/
+
+/-- The install stage either leaves the disk alone (and does not answer "installed"), or the
+    download decoded against the base, matched the advertised hash, passed the signature gate, and
+    the install section ran on exactly those bytes. -/
+theorem installStage_cases (env : Env) (cfg : Config) (base : Option Bytes) (d : Disk) (o : Offer) (dl : Option Bytes) :
+    (installStage env cfg base d o dl = (d, (installStage env cfg base d o dl).2) ∧
+      (installStage env cfg base d o dl).2 ≠ .installed) ∨
+    (∃ stream b out, dl = some stream ∧ base = some b ∧ bipatchDecode stream b = .ok out ∧
+      checkHash out o.hash = true ∧ signatureOk env cfg.key o.sig out = true ∧
+      installStage env cfg base d o dl = (secInstall cfg d o out, .installed)) := by
+  unfold installStage
+  cases dl with
+  | none => left; simp
+  | some stream =>
+    cases base with
+    | none => left; simp
+    | some b =>
+      simp only
+      cases hdec : bipatchDecode stream b with
+      | error e => left; simp
+      | ok out =>
+        simp only
+        by_cases hh : checkHash out o.hash = true
+        · by_cases hsg : signatureOk env cfg.key o.sig out = true
+          · right; exact ⟨stream, b, out, rfl, rfl, hdec, hh, hsg, by simp [hh, hsg]⟩
+          · left; simp [hh, hsg]
+        · left; simp [hh]
+
+/-- After the patch check: either nothing is installed and the disk only went through the rollbacks
+    and (if a patch was offered) the install decision; or the offered patch was installed. -/
+theorem afterCheck_cases (env : Env) (cfg : Config) (base : Option Bytes) (d : Disk) (r : CheckResp) (dl : Option Bytes) :
+    ((afterCheck env cfg base d r dl).2.1 ≠ .installed ∧
+      ((afterCheck env cfg base d r dl).1 = rollBackIfNeeded env cfg d r.rolledBack ∨
+       ∃ o, r.patch = some o ∧
+        (afterCheck env cfg base d r dl).1 = (shouldInstall env cfg (rollBackIfNeeded env cfg d r.rolledBack) o.number).1)) ∨
+    (∃ o stream b out, r.patch = some o ∧ r.available = true ∧
+      (shouldInstall env cfg (rollBackIfNeeded env cfg d r.rolledBack) o.number).2 = .ok ∧
+      dl = some stream ∧ base = some b ∧ bipatchDecode stream b = .ok out ∧
+      checkHash out o.hash = true ∧ signatureOk env cfg.key o.sig out = true ∧
+      afterCheck env cfg base d r dl =
+        (secInstall cfg (shouldInstall env cfg (rollBackIfNeeded env cfg d r.rolledBack) o.number).1 o out, .installed, true)) := by
+  unfold afterCheck
+  simp only
+  by_cases ha : r.available = true
+  · simp only [ha, not_true_eq_false, if_false]
+    cases hp : r.patch with
+    | none => left; simp
+    | some o =>
+      simp only
+      cases hs : (shouldInstall env cfg (rollBackIfNeeded env cfg d r.rolledBack) o.number).2 with
+      | knownBad => left; simp
+      | alreadyInstalled => left; simp
+      | ok =>
+        simp only
+        rcases installStage_cases env cfg base
+          (shouldInstall env cfg (rollBackIfNeeded env cfg d r.rolledBack) o.number).1 o dl with ⟨h1, h2⟩ | ⟨stream, b, out, e1, e2, e3, e4, e5, e6⟩
+        · left
+          refine ⟨h2, Or.inr ⟨o, rfl, ?_⟩⟩
+          rw [h1]
+        · right
+          exact ⟨o, stream, b, out, rfl, by first | trivial | exact ha, hs, e1, e2, e3, e4, e5, by rw [e6]⟩
+  · left; simp [ha]
+
 end Updater
